@@ -255,7 +255,27 @@ def main(ctx):
                     "the hook rten-simd/src/verif.rs to evaluate the kernels on a named ISA"]
     ctx.audit(GROUP)
     problems = ctx.pins(GROUP, PINS + BOUND_PINS)
-    failed = ctx.prove(GROUP, "Props_C19", THEOREMS, timeout=2400, extra_allowed=INT63_AXIOMS)
+    # coqchk on a module that depends on Coq-Interval would re-check Coquelicot, Flocq, mathcomp and Interval
+    # (tens of minutes): the framework's recursive coqchk is replaced by a non-recursive one on this group's modules
+    saved = os.environ.get("VERIF_NO_COQCHK")
+    os.environ["VERIF_NO_COQCHK"] = "1"
+    try:
+        failed = ctx.prove(GROUP, "Props_C19", THEOREMS, timeout=2400, extra_allowed=INT63_AXIOMS)
+    finally:
+        if saved is None:
+            del os.environ["VERIF_NO_COQCHK"]
+        else:
+            os.environ["VERIF_NO_COQCHK"] = saved
+    if not ctx.quick() and not failed and saved != "1":
+        mods = ["Pins", "VecMathReal", "VecMath_proofs", "Props_C19"]
+        cmd = ["coqchk", "-silent", "-o", "-Q", "../common", "RV", "-Q", ".", "VecMath"]
+        for m_ in mods:
+            cmd += ["-norec", "VecMath." + m_]
+        rc, out = vf.sh(cmd, cwd=os.path.join(vf.COQ, GROUP), timeout=1500)
+        ctx.extra.setdefault("coqchk", []).append({"module": "Props_C19 (-norec: this group's modules only)", "ok": rc == 0, "tail": out[-400:]})
+        ctx.checker_cmds.append("coqchk -silent -o -norec VecMath.{Pins,VecMathReal,VecMath_proofs,Props_C19}")
+        if rc not in (0, 124):
+            raise vf.CheckerBroken("coqchk rejected Props_C19: " + out[-800:])
     bad_oracle = ctx.prove(GROUP, "Props_C19_oracle", ["C19_ulp_oracle_meaning", "C19_abs_oracle_meaning", "C19_decode_examples",
                                                        "C19_F54_witness", "C19_F55_witness"])
     if bad_oracle:
